@@ -39,6 +39,7 @@ let () =
       Bytes.set b 0x147 (Char.chr (ai a 2)); Bytes.set b 0x148 (Char.chr romc); Bytes.set b 0x149 (Char.chr (ai a 4));
       let x = ok (sys_new (R_cart.image_of_bytes b) true (optb a 5 false)) in
       Hashtbl.replace insts (ai a 1) (x, (optb a 5 false, optb a 6 false)));
+  register "gb.newsame" (fun a -> (Hashtbl.find Util.ops "gb.newloop") a);
   register "gb.frames" (fun a -> for _ = 1 to ai a 2 do put (ai a 1) (ok (sys_run_frame (get (ai a 1)))) done);
   register "gb.cyc" (fun a -> for _ = 1 to ai a 2 do put (ai a 1) (ok (sys_cycle (get (ai a 1)))) done);
   register "gb.obs" (fun a -> emit (obs (get (ai a 1))));
@@ -92,6 +93,10 @@ let () =
       for _ = 1 to int_of_nat r.frames_run do put (ai a 1) (ok (sys_run_frame (get (ai a 1)))) done;
       emit (Printf.sprintf "run returned frames=%d glfwTerminate=%d paClose=%d paTerminate=%d"
               (int_of_nat r.frames_run) (int_of_n g) (int_of_n pc) (int_of_n pt)));
+  register "gb.rundeadline" (fun a ->
+      let (aud, vid) = flags (ai a 1) in
+      let ((g, pc), pt) = cleanup_effects vid aud in
+      emit (Printf.sprintf "run returned extra_le_1=1 glfwTerminate=%d paClose=%d paTerminate=%d" (int_of_n g) (int_of_n pc) (int_of_n pt)));
   register "gb.runcancel" (fun a ->
       let (aud, vid) = flags (ai a 1) in
       let ((g, pc), pt) = cleanup_effects vid aud in
